@@ -1,6 +1,7 @@
 import Emboss.Model.Text
 import Emboss.Model.TextTree
 import Emboss.Model.TextRead
+import Emboss.Model.TextLayout
 import Driver.Util
 open Emboss.Text Driver
 
@@ -10,6 +11,9 @@ character code, codes < 256 only).
     WINT <ty> <value> <base> <0|1>   → text <hex>
     DINT <ty> <hex>                  → ok <value> | reject
     TOK <hex>                        → toks <hex>,<hex>,…  | out-of-fuel
+    SRT <bufhex|-> (L <emitted 0|1> <width bits> <present expr> <offset expr>)…
+                                     → ok <bufhex> | fail
+        expr (prefix): c <n> | y <byte offset> | + a b | * a b | > a b | = a b | & a b | ! a
 -/
 
 def hexDigitVal (c : Char) : Option Nat :=
@@ -151,6 +155,42 @@ def showWVal : WVal → String
 def showWrites (ws : List Write) : String :=
   String.join (ws.map fun w => String.ofList w.1 ++ "=" ++ showWVal w.2 ++ ";")
 
+
+/-- Layout expressions travel as prefix token streams; fuel = number of tokens. -/
+def parseLExpr : Nat → List String → Option (LExpr × List String)
+  | 0, _ => none
+  | _ + 1, "c" :: n :: r => do pure (.const (← n.toNat?), r)
+  | _ + 1, "y" :: k :: r => do pure (.byte (← k.toNat?), r)
+  | fuel + 1, op :: r =>
+    if op == "!" then do
+      let (a, r1) ← parseLExpr fuel r
+      pure (.not a, r1)
+    else if op == "+" || op == "*" || op == ">" || op == "=" || op == "&" then do
+      let (a, r1) ← parseLExpr fuel r
+      let (b, r2) ← parseLExpr fuel r1
+      let e := if op == "+" then LExpr.add a b else if op == "*" then .mul a b
+        else if op == ">" then .gt a b else if op == "=" then .eq a b else .and a b
+      pure (e, r2)
+    else none
+  | _ + 1, [] => none
+
+def parseLeaves : Nat → List String → Option (List Leaf)
+  | _, [] => some []
+  | 0, _ => none
+  | fuel + 1, "L" :: em :: w :: r => do
+    let em ← parseBool em
+    let w ← w.toNat?
+    let (p, r1) ← parseLExpr (r.length + 1) r
+    let (o, r2) ← parseLExpr (r1.length + 1) r1
+    let rest ← parseLeaves fuel r2
+    pure (⟨p, o, w, em⟩ :: rest)
+  | _ + 1, _ => none
+
+def bytesOfHex (s : List Char) : Option (List Nat) := (unhex s).map fun cs => cs.map Char.toNat
+
+def hexOfBytes (bs : List Nat) : String :=
+  String.ofList (bs.flatMap fun n => [digitChar (n / 16 % 16), digitChar (n % 16)])
+
 def handle (line : String) : String :=
   match line.splitOn " " with
   | ["WINT", ty, v, b, g] =>
@@ -187,6 +227,13 @@ def handle (line : String) : String :=
       | .ok ws _ => "ok " ++ showWrites ws
       | .fail => "fail"
       | .outOfFuel => "out-of-fuel"
+    | _, _ => "bad-op"
+  | "SRT" :: h :: rest =>
+    match (if h == "-" then some [] else bytesOfHex h.toList), parseLeaves (rest.length + 1) rest with
+    | some bytes, some leaves =>
+      match structRoundTrip leaves bytes with
+      | some out => "ok " ++ (if out.isEmpty then "-" else hexOfBytes out)
+      | none => "fail"
     | _, _ => "bad-op"
   | _ => "bad-op"
 
